@@ -30,6 +30,40 @@ def all_selectors(p):
     return locs
 
 
+def bias_selectors(r, W):
+    """selectors on which the two spellings of a label requirement can come apart if one of them is mis-evaluated"""
+    if not W['netpols'] or not W['workloads']:
+        return W
+    x = r.random()
+    if x < 0.25:
+        # a label required with the EMPTY value, on a key most pods do not carry at all
+        p = r.choice(W['netpols'])
+        locs = all_selectors(p)
+        c, k = r.choice(locs)
+        key = r.choice(gen.KEYS)
+        sel = c[k] if isinstance(c[k], dict) else {}
+        sel.setdefault('matchLabels', {})[key] = ''
+        c[k] = sel
+        if r.random() < 0.5:
+            r.choice(W['workloads'])['labels'][key] = ''
+    elif x < 0.55:
+        # labels plus an expression that narrows (or contradicts) them: the expression must not be ignored
+        w = r.choice(W['workloads'])
+        if not w['labels']:
+            w['labels'] = {'app': 'a'}
+        key = r.choice(sorted(w['labels']))
+        extra = r.choice([{'key': key, 'operator': 'NotIn', 'values': [w['labels'][key]]}, {'key': 'zone', 'operator': 'Exists'},
+                          {'key': key, 'operator': 'In', 'values': ['zz']}])
+        sel = {'matchLabels': {key: w['labels'][key]}, 'matchExpressions': [extra]}
+        # a rule of its own, in a policy that governs some other workload, naming w's namespace explicitly
+        tgt = r.choice(W['workloads'])
+        d = r.choice(['ingress', 'egress'])
+        W['netpols'].append({'ns': tgt['ns'], 'name': 'npmixed', 'podSelector': {}, 'policyTypes': ['Ingress' if d == 'ingress' else 'Egress'],
+                             d: [{'from' if d == 'ingress' else 'to': [{'namespaceSelector': {}, 'podSelector': sel}],
+                                  'ports': [{'protocol': 'TCP', 'port': r.choice(gen.PORTS)}]}]})
+    return W
+
+
 def apply_edit(r, W, kind):
     """returns (W2, rel, skip_src, skip_dst, description) or None when the edit does not apply to W"""
     W2 = copy.deepcopy(W)
@@ -79,8 +113,14 @@ def apply_edit(r, W, kind):
         mixed = [(c, k) for c, k in locs if (len(c[k]['matchLabels']) >= 2 or c[k].get('matchExpressions')) and k != 'podSelector' or
                  (k == 'podSelector' and 'name' not in c and len(c[k]['matchLabels']) >= 2)]
         c, k = r.choice(mixed if mixed and r.random() < 0.85 else locs)
+        empties = [(c_, k_) for c_, k_ in locs if '' in c_[k_]['matchLabels'].values()]
+        withexpr = [(c_, k_) for c_, k_ in locs if c_[k_].get('matchExpressions')]
+        if empties and r.random() < 0.6:
+            c, k = r.choice(empties)
+        elif withexpr and r.random() < 0.8:
+            c, k = r.choice(withexpr)
         s = c[k]
-        key = r.choice(list(s['matchLabels']))
+        key = r.choice([q for q, v_ in s['matchLabels'].items() if v_ == ''] or list(s['matchLabels']))
         v = s['matchLabels'].pop(key)
         if not s['matchLabels']:
             del s['matchLabels']
@@ -171,7 +211,7 @@ def main(tier):
                 cid = k + len(pairs)
                 kind = EDITS[cid % len(EDITS)]
                 for attempt in range(30):
-                    W = gen.gen_world(run.rng, anp=False)
+                    W = bias_selectors(run.rng, gen.gen_world(run.rng, anp=False))
                     e = apply_edit(run.rng, W, kind)
                     if e is not None:
                         break
